@@ -74,4 +74,10 @@ int vs_replay(struct vs_explore *e, const uint8_t *sched, int len, uint8_t *out,
 int vs_random(struct vs_explore *e, uint64_t *rng, int sw, uint8_t *out, int outmax, bool *stuck);
 
 uint64_t vs_rand(uint64_t *s);
+
+/* schedule of the run in progress (for crash dumps) */
+const uint8_t *vs_cur_sched(int *len);
+/* on SIGSEGV/SIGBUS/SIGABRT/SIGFPE/SIGILL: call dump(sig) (print the trace so
+ * far and a Crash event), flush stdout, _exit(0) */
+void vs_install_crash_handler(void (*dump)(int sig));
 #endif
